@@ -230,11 +230,20 @@ class Linear(keras.layers.Layer):
       # losses which we have.
       kernel_reg = lambda x: tf.add_n([r(x) for r in self.kernel_regularizer])
 
+    kernel_initializer = self.kernel_initializer
+    if constraints is not None:
+      # Random initial values do not respect the constraints by themselves, but
+      # a freshly built layer must already satisfy them: project the initial
+      # values.
+      kernel_initializer = (
+          lambda shape, dtype=None, **kwargs: constraints(
+              self.kernel_initializer(shape, dtype=dtype, **kwargs)))
+
     self.kernel = self.add_weight(
         LINEAR_LAYER_KERNEL_NAME,
         # 1 column matrix rather than verctor for matrix multiplication.
         shape=[self.num_input_dims, self.units],
-        initializer=self.kernel_initializer,
+        initializer=kernel_initializer,
         regularizer=kernel_reg,
         constraint=constraints,
         dtype=self.dtype)
